@@ -3,17 +3,21 @@ package props
 import (
 	"fmt"
 	"strings"
+	"sync"
 
 	"gaeaverif/harness/core"
 
+	"github.com/XiaoMi/Gaea/mysql"
 	"github.com/XiaoMi/Gaea/parser"
+	"github.com/XiaoMi/Gaea/parser/ast"
 	"github.com/XiaoMi/Gaea/proxy/server"
 )
 
 // C21 — read-only users cannot change data or schema: parser.Preview /
-// PreviewSpecialComment / StripLeadingComments, checkSQLAllowed and the three
-// entry paths (doQuery, doMultiStmts, handleStmtExecute) on a real session
-// with a recording fake backend.
+// PreviewSpecialComment / PreviewMainStatement / withMainStatement /
+// StripLeadingComments, checkSQLAllowed and the entry paths (doQuery,
+// doMultiStmts, handleStmtExecute without and with bound parameters) on a real
+// session with a recording fake backend.
 
 const c21ReadOnlyErr = "write DML is now allowed by read user"
 
@@ -21,17 +25,19 @@ func init() {
 	core.Register(&core.Property{
 		ID: "C21",
 		Rule: "texts = up to three leading pieces of trivia (blanks, /* */, -- and # comments, /*!NNNNN openers, /*+ hints, parentheses, non-ASCII spaces, malformed openers) + a keyword of every statement kind of Preview and of the C21 list in lower/UPPER/Title/rANdom case (also with U+0130 / U+212A look-alikes) + a continuation (blank, /**/, `t`, (, ., _x, digits, non-ASCII, nothing); " +
-			"each text through Preview/PreviewSpecialComment/StripLeadingComments, through checkSQLAllowed for a read-only and a read-write user, and through doQuery and handleStmtExecute on a session for read-only users with and without read/write splitting; multi-statement texts (selects, writes with trivia, failing statements) through handleQuery→doMultiStmts; plus random soups; " +
+			"each text through Preview/PreviewSpecialComment/PreviewMainStatement/StripLeadingComments, through checkSQLAllowed for a read-only and a read-write user, and through doQuery and handleStmtExecute on a session for read-only users with and without read/write splitting (doQuery also on a session whose namespace has a shard rule, where plans are built from the parsed tree, and on a session whose user was made read-only by a namespace reload after login); multi-statement texts (selects, writes with trivia, failing statements) through handleQuery→doMultiStmts; plus random soups; " +
+			"routes that lead to another statement: CALL, text-protocol PREPARE (string of every quoting, user variable, nested) / EXECUTE (USING, IMMEDIATE) / DEALLOCATE, WITH [RECURSIVE] lists of common table expressions (bare, quoted and keyword-like names, column lists, nested parentheses, quotes holding parentheses / quotes / comment openers / backslashes, comments, /*! */ inside, unclosed forms) followed by every kind of main statement, each with leading trivia, in every letter case, as a piece of a multi-statement text and as a prepared statement of the binary protocol with bound parameters (strings with quotes and backslashes, numbers, NULL); withMainStatement alone on the same texts and on soups of its alphabet; every text carries what /repo's grammar makes of it (PREPARE's string followed) for the oracle; " +
 			"non-trivial = the statement is rejected or is a statement kind other than unknown",
 		Generate: genC21,
 		Exec:     execC21,
 		Trivial: func(in core.Sexp, out string) bool {
-			return out == "pass" || strings.HasPrefix(out, "(14 14 ") || strings.HasPrefix(out, "(ok 0")
+			return out == "pass" || out == "none" || strings.HasPrefix(out, "(14 14 14 ") || strings.HasPrefix(out, "(ok 0")
 		},
 		Assumptions: []string{
 			"the SQL blacklist of the namespace is empty (checkSQLAllowed's second test always passes)",
-			"prepared statements: handleStmtExecute is exercised with statements without parameters (the bound text is the statement text)",
-			"'could modify data or schema' is read as: the first keyword MySQL sees (after blanks, comments and inside a leading /*! */) is INSERT, REPLACE, UPDATE, DELETE, CREATE, ALTER, DROP, TRUNCATE, RENAME or LOAD",
+			"prepared statements with parameters: the values are bound as MYSQL_TYPE_VAR_STRING / LONGLONG / NULL by the real bindStmtArgs (its decoding of every other type is C15/C16's subject); sql_mode without NO_BACKSLASH_ESCAPES",
+			"'could modify data or schema' is read as: the first keyword MySQL sees (after blanks, comments and inside a leading /*! */) is INSERT, REPLACE, UPDATE, DELETE, CREATE, ALTER, DROP, TRUNCATE, RENAME or LOAD; or it is CALL or EXECUTE (effect unknown to the proxy); or PREPARE of such a text or of a user variable; or WITH leading to such a statement under one of the readings a backend may have (backslash escapes or not, /*! */ code or comment); or /repo's grammar builds an INSERT/REPLACE/UPDATE/DELETE/DDL/LOAD DATA/EXECUTE statement from it",
+			"the client character set is ASCII-transparent (utf8, utf8mb4, latin1): no multi-byte character contains a quote, back quote or backslash byte",
 			"multi path: every piece used is a statement the proxy forwards to the backend (no SET/USE/SHOW/BEGIN …), so the count of backend executions equals the count of statements that passed",
 		},
 	})
@@ -64,7 +70,13 @@ func execC21(in core.Sexp) string {
 	switch in.Head() {
 	case "preview":
 		sql := in.Nth(1).Str()
-		return fmt.Sprintf("(%d %d %s)", parser.Preview(sql), parser.PreviewSpecialComment(sql), core.Text(parser.StripLeadingComments(sql)))
+		return fmt.Sprintf("(%d %d %d %s)", parser.Preview(sql), parser.PreviewSpecialComment(sql), parser.PreviewMainStatement(sql), core.Text(parser.StripLeadingComments(sql)))
+	case "withmain":
+		m, ok := parser.VerifWithMainStatement(in.Nth(1).Str())
+		if !ok {
+			return "none"
+		}
+		return "(some " + core.Text(m).String() + ")"
 	case "check":
 		ro, split := c21Flags(in.Nth(1).Atom)
 		s := server.VerifLexNewSession(ro, split, false)
@@ -81,11 +93,33 @@ func execC21(in core.Sexp) string {
 		ro, split := c21Flags(in.Nth(2).Atom)
 		sql := in.Nth(3).Str()
 		multi := path == "multi" || path == "stmtmulti"
-		s := server.VerifLexNewSession(ro, split, multi)
+		var s *server.VerifLexSession
+		if path == "squery" {
+			s = server.VerifC21NewShardedSession(ro, split, multi)
+		} else {
+			s = server.VerifLexNewSession(ro, split, multi)
+		}
 		defer s.Close()
 		var err error
 		switch path {
-		case "query":
+		case "stmtp":
+			id, n, perr := s.StmtPrepare(sql)
+			if perr != nil {
+				return "(err prepare)"
+			}
+			given := in.Nth(4).List
+			params := make([]stmtParam, n)
+			for i := range params {
+				params[i] = stmtParam{tp: mysql.TypeNull, null: true}
+				if len(given) > 0 {
+					params[i] = c21Param(given[i%len(given)])
+				}
+			}
+			err = s.StmtExecuteRaw(stmtExecPacket(id, 0, params, 1, n))
+		case "query", "squery", "requery":
+			if path == "requery" {
+				s.DemoteToReadOnly()
+			}
 			// doQuery has no recover of its own (handleQuery has): a panic of
 			// the planner/parser after the check is "passed the check" here
 			// (that is C38's subject; checkSQLAllowed alone is run by `check`)
@@ -104,7 +138,8 @@ func execC21(in core.Sexp) string {
 		default:
 			return "bad"
 		}
-		rejected := err != nil && err.Error() == c21ReadOnlyErr
+		// (getPlan's refusal of a parsed tree comes wrapped in doQuery's "get plan error")
+		rejected := err != nil && (err.Error() == c21ReadOnlyErr || strings.Contains(err.Error(), "err: "+c21ReadOnlyErr))
 		if !multi {
 			if rejected {
 				if len(s.Events()) > 0 {
@@ -126,6 +161,79 @@ func execC21(in core.Sexp) string {
 	return "bad"
 }
 
+// c21Param is one bound parameter of a stmtp case on the wire.
+func c21Param(a core.Sexp) stmtParam {
+	switch {
+	case a.IsAtom:
+		return stmtParam{tp: mysql.TypeNull, null: true}
+	case a.Head() == "i":
+		v := uint64(a.Nth(1).Int())
+		b := make([]byte, 8)
+		for i := range b {
+			b[i] = byte(v >> (8 * uint(i)))
+		}
+		return stmtParam{tp: mysql.TypeLonglong, value: b}
+	}
+	return stmtParam{tp: mysql.TypeVarString, value: mysql.AppendLenEncStringBytes(nil, a.Nth(1).Bytes())}
+}
+
+var (
+	c21FactOnce     sync.Once
+	c21FactSessions [2]*server.VerifLexSession
+)
+
+// c21PlannedKind asks the real getPlan steps (preBuildUnshardPlan, Parse,
+// stmtTypeOfNode) of a session without / with a shard rule what the plan of
+// the text is built from: -1 = from the text (or no plan, or no parse).
+func c21PlannedKind(sql string, sharded bool) (k int) {
+	c21FactOnce.Do(func() {
+		lexQuiet.Do(server.VerifLexSilenceGlobalLog)
+		c21FactSessions[0] = server.VerifLexNewSession(true, false, false)
+		c21FactSessions[1] = server.VerifC21NewShardedSession(true, false, false)
+	})
+	defer func() {
+		if recover() != nil {
+			k = -1
+		}
+	}()
+	if sharded {
+		return c21FactSessions[1].PlannedKind(sql)
+	}
+	return c21FactSessions[0].PlannedKind(sql)
+}
+
+// c21Ast tells what /repo's grammar makes of a text: "w" a statement that
+// changes data or schema (or runs a prepared statement), "r" another
+// statement, "x" no parse. The string of PREPARE is followed.
+func c21Ast(sql string, depth int) (class string) {
+	defer func() {
+		if recover() != nil {
+			class = "x"
+		}
+	}()
+	n, err := parser.New().ParseOneStmt(sql, "", "")
+	if err != nil || n == nil {
+		return "x"
+	}
+	switch x := n.(type) {
+	case *ast.InsertStmt, *ast.UpdateStmt, *ast.DeleteStmt, *ast.LoadDataStmt,
+		*ast.CreateDatabaseStmt, *ast.DropDatabaseStmt, *ast.CreateTableStmt, *ast.DropTableStmt, *ast.RenameTableStmt,
+		*ast.CreateViewStmt, *ast.CreateIndexStmt, *ast.DropIndexStmt, *ast.AlterTableStmt, *ast.TruncateTableStmt:
+		return "w"
+	case *ast.ExecuteStmt:
+		return "w"
+	case *ast.PrepareStmt:
+		if x.SQLVar != nil {
+			return "w"
+		}
+		if depth < 4 && c21Ast(x.SQLText, depth+1) == "w" {
+			return "w"
+		}
+		return "r"
+	}
+	return "r"
+}
+
 var c21Keywords = []string{"select", "stream", "insert", "replace", "update", "delete", "savepoint", "lock", "unlock",
 	"begin", "start", "commit", "rollback", "create", "alter", "rename", "drop", "truncate", "flush", "set", "show", "use",
 	"explain", "analyze", "describe", "desc", "repair", "optimize", "release", "kill", "load",
@@ -134,7 +242,8 @@ var c21Keywords = []string{"select", "stream", "insert", "replace", "update", "d
 var c21Writes = []string{"insert", "replace", "update", "delete", "create", "alter", "rename", "drop", "truncate", "load"}
 
 var c21Trivia = []string{" ", "\t\n", "\r\n ", "/* c */", "/* insert */", "/**/", "/***/", "/* a\nb */", "-- c\n", "--\n", "-- insert\n", "--\tx\n", "# c\n", "#\n", "# delete from t\n",
-	"/*!", "/*!40101 ", "/*!50708", "/*! ", "/*!M100100 ", "/*!123456 ", "/*!40101\t ", "/*+ hint */", "/*+ MAX_EXECUTION_TIME(1) */ "}
+	"/*!", "/*!40101 ", "/*!50708", "/*! ", "/*!M100100 ", "/*!123456 ", "/*!40101\t ", "/*+ hint */", "/*+ MAX_EXECUTION_TIME(1) */ ",
+	";", "; ", ";;\n;", ";/* x */", "; -- c\n", ";/* select */ ", " ;# c\n"}
 
 var c21OddTrivia = []string{"(", "((", "( ", "/*!40101 */", " ", "　", "\xa0", "\x85", "--x\n", "-- c", "# c", "/* unclosed", "/*/ ", ";", "*/ ", "/*!1234 ", "/*!M1 ", "/*!\n", "1", "@a:=", "é", "\x00", "\\", "/*!40101 /*!40101 ", "--", "#", "/*", "/", "-"}
 
@@ -185,17 +294,45 @@ var c21Reads = []string{"select 1", "select * from t", "SELECT 'insert'", "/* de
 
 func genC21(g *core.Gen) {
 	emit := func(tag string, xs ...core.Sexp) { g.Emit(core.L(xs...), xs[0].Atom, tag) }
+	astOf := func(s string) core.Sexp { return core.L(core.A("ast"), core.A(c21Ast(s, 0))) }
+	// sessFacts: the grammar's view of the text, and (when getPlan builds the plan of this text from a parsed
+	// tree on that kind of session) the kind of that tree
+	sessFacts := func(s string, sharded bool) []core.Sexp {
+		fs := []core.Sexp{astOf(s)}
+		if k := c21PlannedKind(s, sharded); k >= 0 {
+			fs = append(fs, core.L(core.A("pk"), core.I(int64(k))))
+		}
+		return fs
+	}
+	sessCase := func(tag, path, user, s string) {
+		xs := []core.Sexp{core.A("sess"), core.A(path), core.A(user), core.Text(s)}
+		t := s
+		if path == "stmt" {
+			// handleStmtExecute trims the final semicolons before anything else
+			t = strings.TrimRight(s, ";")
+		}
+		emit(tag, append(xs, sessFacts(t, path == "squery")...)...)
+	}
 	all := func(s, tag string, sess bool) {
+		a := astOf(s)
 		emit(tag, core.A("preview"), core.Text(s))
-		emit(tag, core.A("check"), core.A("ro"), core.Text(s))
+		emit(tag, core.A("check"), core.A("ro"), core.Text(s), a)
 		if g.Intn(3) == 0 {
-			emit(tag, core.A("check"), core.A("rw"), core.Text(s))
+			emit(tag, core.A("check"), core.A("rw"), core.Text(s), a)
 		}
 		if sess {
-			emit(tag, core.A("sess"), core.A("query"), core.A(core.Pick(g, []string{"ro", "rosplit"})), core.Text(s))
-			emit(tag, core.A("sess"), core.A("stmt"), core.A(core.Pick(g, []string{"ro", "rosplit"})), core.Text(s))
+			sessCase(tag, "query", core.Pick(g, []string{"ro", "rosplit"}), s)
+			if g.Intn(2) == 0 {
+				// the same on a namespace with a shard rule: planned from the tree the parser builds
+				sessCase(tag, "squery", core.Pick(g, []string{"ro", "rosplit"}), s)
+			}
+			sessCase(tag, "stmt", core.Pick(g, []string{"ro", "rosplit"}), s)
 			if g.Intn(4) == 0 {
-				emit(tag, core.A("sess"), core.A("query"), core.A(core.Pick(g, []string{"rw", "rwsplit"})), core.Text(s))
+				sessCase(tag, "query", core.Pick(g, []string{"rw", "rwsplit"}), s)
+			}
+			if g.Intn(4) == 0 {
+				// logged in with write permission, made read-only by a namespace reload since
+				sessCase(tag, "requery", core.Pick(g, []string{"rw", "rwsplit"}), s)
 			}
 		}
 	}
@@ -271,4 +408,5 @@ func genC21(g *core.Gen) {
 		path := core.Pick(g, []string{"multi", "multi", "stmtmulti"})
 		emit("random", core.A("sess"), core.A(path), core.A(core.Pick(g, []string{"ro", "rosplit", "rw", "rwsplit"})), core.Text(b.String()))
 	}
+	genC21Routes(g, emit, all)
 }
